@@ -105,6 +105,10 @@ def run(ctx):
         not any(x.get("k") in ("break", "return", "continue") for x in loops[0].child("body").walk())
     r.check(ok, "BuildNode::getSignature|every-producer-folded", "", "producer names are not all folded", g)
     for c in combs:
+        by_value = not c.tname("rt").rstrip().endswith("&")
+        if cfg.is_discarded(g, c):
+            r.check(not (c.get("cm") or by_value), "BuildNode::getSignature|fold-has-effect(%s)" % expr_plain(arg_nodes(c)[0])[:24], "",
+                    "combine() result discarded although combine does not modify the signature in place: nothing is folded", g, c)
         pt = g.db_types[c["pt"][0]].replace("const ", "").replace("&", "").strip()
         origin = arg_nodes(c)[0]
         while origin is not None and origin.get("k") == "cast":
